@@ -190,3 +190,289 @@ pub fn path_tiles(b: &[u8], s: &PathSplit) -> bool {
     }
     i == b.len()
 }
+
+pub const DEC_MAX: usize = 24;
+
+#[inline(always)]
+fn hexval(c: u8) -> u8 {
+    if c.is_ascii_digit() {
+        c - b'0'
+    } else if c >= b'a' {
+        c - b'a' + 10
+    } else {
+        c - b'A' + 10
+    }
+}
+
+/// Percent-decoding: every `%XX` replaced by that octet, everything else kept.
+/// (On a valid component every '%' is followed by two hex digits.)
+pub fn pct_decode(b: &[u8]) -> ([u8; DEC_MAX], usize) {
+    let mut out = [0u8; DEC_MAX];
+    let mut n = 0;
+    let mut i = 0;
+    while i < b.len() {
+        if b[i] == b'%' && i + 2 < b.len() {
+            out[n] = (hexval(b[i + 1]) << 4) | hexval(b[i + 2]);
+            i += 3;
+        } else {
+            out[n] = b[i];
+            i += 1;
+        }
+        n += 1;
+    }
+    (out, n)
+}
+
+pub const OUT_MAX: usize = 40;
+
+/// An output text under construction (fixed array).
+#[derive(Clone, Copy)]
+pub struct Out {
+    pub buf: [u8; OUT_MAX],
+    pub len: usize,
+}
+
+impl Out {
+    pub fn new() -> Self {
+        Out { buf: [0; OUT_MAX], len: 0 }
+    }
+    pub fn push(&mut self, c: u8) {
+        assert!(self.len < OUT_MAX);
+        self.buf[self.len] = c;
+        self.len += 1;
+    }
+    pub fn extend(&mut self, s: &[u8]) {
+        let mut i = 0;
+        while i < s.len() {
+            self.push(s[i]);
+            i += 1;
+        }
+    }
+    pub fn bytes(&self) -> &[u8] {
+        &self.buf[..self.len]
+    }
+}
+
+/// The five components of a reference, as byte slices.
+#[derive(Clone, Copy)]
+pub struct Comps<'a> {
+    pub scheme: Option<&'a [u8]>,
+    pub authority: Option<&'a [u8]>,
+    pub path: &'a [u8],
+    pub query: Option<&'a [u8]>,
+    pub fragment: Option<&'a [u8]>,
+}
+
+pub fn comps_of<'a>(b: &'a [u8], s: &RefSplit) -> Comps<'a> {
+    Comps {
+        scheme: s.scheme.map(|(a, e)| &b[a..e]),
+        authority: s.authority.map(|(a, e)| &b[a..e]),
+        path: &b[s.path.0..s.path.1],
+        query: s.query.map(|(a, e)| &b[a..e]),
+        fragment: s.fragment.map(|(a, e)| &b[a..e]),
+    }
+}
+
+/// The first segment of `path` (text up to the first '/') contains ':'.
+pub fn first_segment_has_colon(path: &[u8]) -> bool {
+    let mut i = 0;
+    while i < path.len() && path[i] != b'/' {
+        if path[i] == b':' {
+            return true;
+        }
+        i += 1;
+    }
+    false
+}
+
+/// RFC 3986 section 5.3 recomposition plus the three documented
+/// disambiguations, applied by an independent rule:
+///  * relative path + authority            => '/' prefix
+///  * path starting `//` + no authority    => '/.' prefix
+///  * first segment with ':' + no scheme + no authority => './' prefix
+pub fn recompose(c: &Comps) -> Out {
+    recompose_with(c, true)
+}
+
+/// `slash_empty`: whether an *empty* path after an authority is rendered as
+/// `/` (what the setters do when they touch the authority or the path) or left
+/// empty (both are valid and unambiguous; see C05 in DESIGN.md).
+pub fn recompose_with(c: &Comps, slash_empty: bool) -> Out {
+    let mut o = Out::new();
+    if let Some(s) = c.scheme {
+        o.extend(s);
+        o.push(b':');
+    }
+    if let Some(a) = c.authority {
+        o.extend(b"//");
+        o.extend(a);
+    }
+    let p = c.path;
+    if c.authority.is_some() {
+        if (p.is_empty() && slash_empty) || (!p.is_empty() && p[0] != b'/') {
+            o.push(b'/');
+        }
+    } else if p.len() >= 2 && p[0] == b'/' && p[1] == b'/' {
+        o.extend(b"/.");
+    } else if c.scheme.is_none() && first_segment_has_colon(p) {
+        o.extend(b"./");
+    }
+    o.extend(p);
+    if let Some(q) = c.query {
+        o.push(b'?');
+        o.extend(q);
+    }
+    if let Some(f) = c.fragment {
+        o.push(b'#');
+        o.extend(f);
+    }
+    o
+}
+
+// ---------------------------------------------------------------- path lists
+/// A segment sequence: ranges into some source text.
+#[derive(Clone, Copy)]
+pub struct SegList {
+    pub n: usize,
+    pub r: [R; MAXSEG],
+}
+
+impl SegList {
+    pub fn empty() -> Self {
+        SegList { n: 0, r: [(0, 0); MAXSEG] }
+    }
+    pub fn push(&mut self, r: R) {
+        assert!(self.n < MAXSEG);
+        self.r[self.n] = r;
+        self.n += 1;
+    }
+    pub fn pop(&mut self) {
+        assert!(self.n > 0);
+        self.n -= 1;
+    }
+    pub fn of(split: &PathSplit) -> Self {
+        SegList { n: split.count, r: split.seg }
+    }
+}
+
+#[inline(always)]
+pub fn seg<'a>(src: &'a [u8], r: R) -> &'a [u8] {
+    &src[r.0..r.1]
+}
+
+pub fn is_dot(s: &[u8]) -> bool {
+    s.len() == 1 && s[0] == b'.'
+}
+pub fn is_dotdot(s: &[u8]) -> bool {
+    s.len() == 2 && s[0] == b'.' && s[1] == b'.'
+}
+pub fn has_colon(s: &[u8]) -> bool {
+    let mut i = 0;
+    while i < s.len() {
+        if s[i] == b':' {
+            return true;
+        }
+        i += 1;
+    }
+    false
+}
+
+/// A single leading `.` in front of a first segment that is empty or contains
+/// ':' is a shield (it keeps the text from being misread); comparisons of
+/// segment sequences are made modulo that shield, on both sides.
+pub fn strip_shield(src: &[u8], l: &SegList) -> SegList {
+    if l.n >= 2 && is_dot(seg(src, l.r[0])) {
+        let s1 = seg(src, l.r[1]);
+        if s1.is_empty() || has_colon(s1) {
+            let mut o = SegList::empty();
+            let mut i = 1;
+            while i < l.n {
+                o.push(l.r[i]);
+                i += 1;
+            }
+            return o;
+        }
+    }
+    *l
+}
+
+pub fn lists_equal(sa: &[u8], a: &SegList, sb: &[u8], b: &SegList) -> bool {
+    if a.n != b.n {
+        return false;
+    }
+    let mut i = 0;
+    while i < a.n {
+        let x = seg(sa, a.r[i]);
+        let y = seg(sb, b.r[i]);
+        if x.len() != y.len() {
+            return false;
+        }
+        let mut k = 0;
+        while k < x.len() {
+            if x[k] != y[k] {
+                return false;
+            }
+            k += 1;
+        }
+        i += 1;
+    }
+    true
+}
+
+/// Equality of segment sequences modulo the shield.
+pub fn lists_equal_mod_shield(sa: &[u8], a: &SegList, sb: &[u8], b: &SegList) -> bool {
+    let a2 = strip_shield(sa, a);
+    let b2 = strip_shield(sb, b);
+    lists_equal(sa, &a2, sb, &b2)
+}
+
+/// RFC 3986 5.2.4 with Errata 4547 on a segment sequence: drop `.`; `..`
+/// removes the previous segment, or is kept when the path is relative and
+/// nothing (but `..`) is left to remove, or is dropped at the root.
+pub fn normalize_list(src: &[u8], l: &SegList, absolute: bool) -> SegList {
+    let mut st = SegList::empty();
+    let mut i = 0;
+    while i < l.n {
+        let s = seg(src, l.r[i]);
+        if is_dot(s) {
+        } else if is_dotdot(s) {
+            if st.n > 0 && !is_dotdot(seg(src, st.r[st.n - 1])) {
+                st.pop();
+            } else if !absolute {
+                st.push(l.r[i]);
+            }
+        } else {
+            st.push(l.r[i]);
+        }
+        i += 1;
+    }
+    st
+}
+
+/// One step of "symbolic" pushing: `.` and `..` with their directory meaning
+/// against the segments already there (which are not themselves normalised).
+/// Returns true when the pushed segment was a dot segment.
+pub fn symbolic_step(src: &[u8], l: &mut SegList, absolute: bool, s: R, dotdot: R) -> bool {
+    let t = seg(src, s);
+    if is_dot(t) {
+        true
+    } else if is_dotdot(t) {
+        list_pop(src, l, absolute, dotdot);
+        true
+    } else {
+        if !t.is_empty() || l.n > 0 {
+            l.push(s);
+        }
+        false
+    }
+}
+
+/// `pop`: removes the last segment; on an empty relative path or a path ending
+/// in `..` appends `..` instead; an empty absolute path is left alone.
+pub fn list_pop(src: &[u8], l: &mut SegList, absolute: bool, dotdot: R) {
+    if (l.n == 0 && !absolute) || (l.n > 0 && is_dotdot(seg(src, l.r[l.n - 1]))) {
+        l.push(dotdot);
+    } else if l.n > 0 {
+        l.pop();
+    }
+}
